@@ -542,6 +542,35 @@ func lockPairing(c *Ctx, sel func(fn *ssa.Function) bool) {
 				bad = append(bad, fmt.Sprintf("%s: exit with lock(s) still held on some path: %s", p.InstrPos(ex.At), strings.Join(extra, ", ")))
 			}
 		}
+		// a release reached with the lock held on no path: "fatal error: sync: Unlock of unlocked
+		// RWMutex" (an explicit Unlock on an early-return path under a deferred Unlock, an Unlock
+		// repeated after a helper already released).  Only for classes this function acquires itself or
+		// is entered with: a helper that releases its caller's lock is judged at the caller
+		acquires := map[string]bool{}
+		for _, ci := range callsIn(fn) {
+			if op, ok := asLockOp(ci); ok && op.Acquire {
+				acquires[op.Class] = true
+			}
+		}
+		for _, u := range fl.Unheld {
+			if !acquires[u.Class] {
+				continue
+			}
+			pos := p.InstrPos(u.At)
+			what := "Unlock"
+			if u.Defer != nil {
+				what = "the deferred Unlock registered at " + p.InstrPos(u.Defer)
+				if rd, ok := u.At.(*ssa.RunDefers); ok {
+					// the exit this RunDefers belongs to
+					for _, in := range rd.Block().Instrs {
+						if _, isRet := in.(*ssa.Return); isRet {
+							pos = p.InstrPos(in)
+						}
+					}
+				}
+			}
+			bad = append(bad, fmt.Sprintf("%s: %s of %s runs with the lock not held on any path reaching it (it was already released on this path): fatal error \"sync: Unlock of unlocked RWMutex\"", pos, what, u.Class))
+		}
 		// may-panic calls while a lock is held without a deferred unlock
 		deferred := map[string]bool{}
 		for _, ci := range callsIn(fn) {
